@@ -612,6 +612,7 @@ class Splitter(Node):
                         for edge in self.out_edges:
                             if edge.can_put():
                                 out_edge_index_to_put = edge
+                                self.stats["out_edge_selection"].append(self.out_edges.index(edge))  # record the chosen edge
                                 break
                         
                         if out_edge_index_to_put is not None:
@@ -721,6 +722,7 @@ class Splitter(Node):
                     for edge in self.out_edges:
                         if edge.can_put():
                             out_edge_index_to_put = edge
+                            self.stats["out_edge_selection"].append(self.out_edges.index(edge))  # record the chosen edge
                             break
                     
                     if out_edge_index_to_put is not None:
